@@ -469,7 +469,8 @@ def run(pid, tier, seed, replay, props, judge, extra_streams=None, rule_extra=''
         if r is None or 'error' in (r or {}) or m is None:
             lost += 1
             # a one-shot iterator below a dict whose equal keys collapsed cannot be described to the model: a lost case, not a disagreement
-            if r is not None and 'error' in r and 'outside the universe' not in r['error'] and 'cannot be tracked' not in r['error']:
+            if r is not None and 'error' in r and 'outside the universe' not in r['error'] and 'cannot be tracked' not in r['error'] \
+                    and 'unhashable type' not in r['error']:      # a corrupted value with an unhashable key / element cannot be built at all
                 disagreements.append({'case': c, 'impl': r, 'what': 'worker error'})
             continue
         I, (M, S, sup) = r['out'], m
